@@ -583,3 +583,53 @@ Theorem C03_stdish_vector_migration_unequal_allocators_no_leak :
          (fun s' => exists nb', st2 s' (fun l => negb (inrng sb 0 n l) && f l) (fun x => if Z.eqb sb x then None else g x) nb').
 Proof. exact Effects6Proofs.migrate_block_then_destroy_post. Qed.
 Print Assumptions C03_stdish_vector_migration_unequal_allocators_no_leak.
+
+(* ================================================================== part 7: TreeSet::Relocator bookkeeping during one insertion *)
+From C03 Require Effects7 Effects7Proofs.
+Import Effects7 Effects7Proofs.
+
+(* ONE insertion that goes through TreeSet::Relocator (pvAddGrow / pvAddSplit): ANY script of mOldNodes.AddBack / CreateNode /
+   AddSegment requests, ANY growth policy and element sizes of the four NestedArrayIntCap<4> arrays, ANY failure schedule (growing an
+   array, creating a node, relocating the items).  CreateNode reserves the slot in mNewNodes BEFORE the node is created.  Never stuck;
+   if the insertion throws, the memory manager's view is exactly the one before the insertion (every node created so far and every
+   array block returned); if it succeeds, exactly the old nodes named by the script are gone, exactly the created nodes are new. *)
+Theorem C03_treeset_relocator_insertion_no_leak :
+  forall (mgr : Z) (esz : atag -> Z) (grow : nat -> nat) (f : loc -> bool) (g : bview) (nb0 : Z),
+    (forall b, nb0 <= b -> g b = None) ->
+    forall ops s nb,
+    nb0 <= nb -> st2 s f g nb ->
+    olds_ok mgr g nb0 (rev (olds_of (flat_map (expand true) ops))) ->
+    post (insertion mgr esz grow true ops) s
+         (fun _ s' => exists r nb', nb0 <= nb' /\ r_olds r = rev (olds_of (flat_map (expand true) ops)) /\ st2 s' f (done_view mgr g r) nb')
+         (fun s' => exists nb', nb0 <= nb' /\ st2 s' f g nb').
+Proof. exact Effects7Proofs.insertion_no_leak. Qed.
+Print Assumptions C03_treeset_relocator_insertion_no_leak.
+
+(* closed form: the insertion that takes a TreeNode<4, 1> tree from height 2 to 3 (5 new nodes: the 5th makes mNewNodes leave its
+   internal storage), from a world holding exactly the two old nodes: every schedule *)
+Theorem C03_treeset_relocator_height_increase_any_schedule :
+  forall sch,
+  match insertion 1 esz_std grow_dbl true h23_script (h23_state sch) with
+  | (Stuck, _) => False
+  | (Exc, s') => forall b, find_blk b (blocks s') = find_blk b (blocks (h23_state sch))
+  | (Val _, s') => find_blk 0 (blocks s') = None /\ find_blk 1 (blocks s') = None
+  end.
+Proof. exact Effects7Proofs.h23_any_schedule. Qed.
+Print Assumptions C03_treeset_relocator_height_increase_any_schedule.
+
+Theorem C03_treeset_relocator_height_increase_success :
+  let '(o, s') := insertion 1 esz_std grow_dbl true h23_script (h23_state []) in
+  o = Val tt /\ map (fun e => snd (snd e)) (blocks s') = [96; 96; 96; 32; 32].
+Proof. exact Effects7Proofs.h23_success_five_nodes. Qed.
+Print Assumptions C03_treeset_relocator_height_increase_success.
+
+(* seeded change (second wave, C03/b): `node = Node::Create(...); mNewNodes.AddBack(node)` - when the growth of mNewNodes fails, the
+   5th node is recorded nowhere: one 96-byte block more than before stays live for ever; the real order leaves exactly the old nodes *)
+Theorem C03_treeset_relocator_create_before_reserve_refuted :
+  exists sch,
+    (let '(o, s') := insertion 1 esz_std grow_dbl false h23_script (h23_state sch) in
+     o = Exc /\ map (fun e => (fst e, snd (snd e))) (blocks s') = [(8, 96); (1, 96); (0, 48)]) /\
+    (let '(o, s') := insertion 1 esz_std grow_dbl true h23_script (h23_state sch) in
+     o = Exc /\ map (fun e => (fst e, snd (snd e))) (blocks s') = [(1, 96); (0, 48)]).
+Proof. exact Effects7Proofs.create_before_reserve_refuted. Qed.
+Print Assumptions C03_treeset_relocator_create_before_reserve_refuted.
